@@ -543,6 +543,48 @@ def _polling_repush(ctx):
     return goals
 
 
+def _consume_one_signal(ctx):
+    """C18 (consumed exactly once, one resume per signal): when a task result suspends the stage, either the mailbox the row
+    was loaded with is empty / absent and the stage is stored SUSPENDED with no continuation, or exactly its FIRST entry is
+    consumed -- the stored mailbox is the loaded one without its head, every other waiting signal kept in order -- and the
+    stage is stored RUNNING together with one RunTask for the same task."""
+    from pyvc.values import VAL, vlist_get, vlist_len
+
+    I = ctx.I
+    res = ctx.extra.get("result")
+    if res is None or ctx.exc is not None:
+        return []
+    susp = I.getattr(res, "status").t == status(I, "SUSPENDED")
+    key = I.ops.lit("_buffered_signals").t
+    # the task's own result.context is merged into the stage context first; a task that writes the mailbox key itself is
+    # outside this obligation (the mailbox is then the task's, not the loaded one)
+    rc = I.getattr(res, "context")
+    if isinstance(rc, SOpt):
+        rc = rc.inner
+    task_writes_mailbox = I.ops.dict_get(rc, I.ops.lit("_buffered_signals"))[0]
+    susp = z3.And(susp, z3.Not(task_writes_mailbox))
+    goals = []
+    j = z3.Int("signal_j")
+    for n, (e, g) in enumerate(P.stores(ctx)):
+        ld, snap = e.data.get("loaded") or {}, e.data["snap"]
+        if "ctx_vals" not in ld or "ctx_vals" not in snap:
+            continue
+        oh, ov = z3.Select(ld["ctx_has"], key), z3.Select(ld["ctx_vals"], key)
+        nh, nv = z3.Select(snap["ctx_has"], key), z3.Select(snap["ctx_vals"], key)
+        waiting = z3.And(oh, VAL.is_VList(ov), vlist_len(VAL.vl(ov)) > 0)
+        olen = vlist_len(VAL.vl(ov))
+        stored = snap["status"].t
+        well_typed = z3.Implies(oh, VAL.is_VList(ov))
+        goals.append((f"store{n}.stays-suspended-only-with-an-empty-mailbox", z3.Implies(z3.And(g, susp, well_typed, stored == status(I, "SUSPENDED")), z3.Not(waiting))))
+        goals.append((f"store{n}.resumes-only-by-consuming-a-signal", z3.Implies(z3.And(g, susp, well_typed, stored == status(I, "RUNNING")), waiting)))
+        goals.append((f"store{n}.consumes-exactly-the-first-signal", z3.Implies(
+            z3.And(g, susp, well_typed, waiting, stored == status(I, "RUNNING"), j >= 0, j < olen - 1),
+            z3.And(nh, VAL.is_VList(nv), vlist_len(VAL.vl(nv)) == olen - 1, vlist_get(VAL.vl(nv), j) == vlist_get(VAL.vl(ov), j + 1)))))
+        goals.append((f"store{n}.the-other-signals-stay", z3.Implies(
+            z3.And(g, susp, well_typed, waiting, stored == status(I, "RUNNING")), z3.And(nh, VAL.is_VList(nv), vlist_len(VAL.vl(nv)) == olen - 1))))
+    return goals
+
+
 def process_result_unit():
     def build(ctx):
         h, msg, rec = _rt_env(ctx)
@@ -555,6 +597,7 @@ def process_result_unit():
     obls.append(Obl("C14/repush/process_result", _run_task_repush, when="any"))
     obls.append(Obl("C14/polling-keeps-the-message", _polling_repush, when="any"))
     obls.append(Obl("C01/T1x/process_result", _run_task_repush, when="any"))
+    obls.append(Obl("C18/consume-one/process_result", _consume_one_signal, when="any"))
     return _helper_unit("L2/RunTask.process_result", H + "run_task.handler:RunTaskHandler._process_result_safely", build, obls)
 
 
